@@ -17,6 +17,7 @@ import atexit
 import heapq
 import json
 import logging
+import os
 import pickle
 import shutil
 import subprocess
@@ -137,13 +138,25 @@ def rec(d):
             d.get("deadline"), bool(d.get("drop", False))]
 
 
-DATADIRS = set()        # data dirs of histories in flight (removed at the end of the history; atexit = safety net)
+class DATA:
+    dir = None          # ONE data dir per harness process (mkdir/rmdir per history costs >100 ms on the loaded machine, a file
+                        # write/unlink 0.1 ms); emptied before and after every history, removed at exit
 
 
-@atexit.register
-def _rm_datadirs():
-    for d in list(DATADIRS):
-        shutil.rmtree(d, ignore_errors=True)
+def history_datadir():
+    """an EMPTY data dir for the next history (as mw-qserve -d DIR gets it: workq.pickle written by Main.savedb, read by
+    Main.loaddb)"""
+    if DATA.dir is None:
+        DATA.dir = tempfile.mkdtemp(prefix="vt-c18-", dir="/var/tmp")
+        atexit.register(shutil.rmtree, DATA.dir, True)
+    empty_datadir()
+    return DATA.dir
+
+
+def empty_datadir():
+    if DATA.dir is not None:
+        for fn in os.listdir(DATA.dir):
+            os.unlink(os.path.join(DATA.dir, fn))
 
 
 def new_main(datadir):
@@ -646,18 +659,14 @@ class Sim:
 
 
 def run_history(ops, prop, model, trace):
-    """generator: yields at every RunLoop; result in the StopIteration value.  A history with a restart gets its own data
-    dir (one workq.pickle, written by Main.savedb, read by Main.loaddb), removed when the history ends."""
-    datadir = None
-    if any(op.split()[0] == "R" for op in ops):
-        datadir = tempfile.mkdtemp(prefix="vt-c18-", dir="/var/tmp")
-        DATADIRS.add(datadir)
+    """generator: yields at every RunLoop; result in the StopIteration value.  A history with a restart runs as server
+    sessions on an (initially empty) data dir, emptied again when the history ends."""
+    datadir = history_datadir() if any(op.split()[0] == "R" for op in ops) else None
     try:
         return (yield from _run_history(ops, prop, model, trace, datadir))
     finally:
         if datadir is not None:
-            shutil.rmtree(datadir, ignore_errors=True)
-            DATADIRS.discard(datadir)
+            empty_datadir()
 
 
 def _run_history(ops, prop, model, trace, datadir):
